@@ -240,6 +240,11 @@ namespace ip {
 		m_cwnd = m_mss * 2;
 		m_bytes_in_flight = 0;
 		m_outstanding_packet_sizes.clear();
+		// nothing received or queued for sending on this connection may show up
+		// on the next one
+		m_incoming_queue.clear();
+		m_reorder_buffer.clear();
+		m_outgoing_packets.clear();
 		m_recv_null_buffers = false;
 		m_send_null_buffers = false;
 		m_next_incoming_seq = 0;
